@@ -227,6 +227,8 @@ var replPool = []string{
 	"\"abc\" * 2;", // a string that is no numeral under arithmetic: fails
 	"5 - \"abc\";", // the same string again: fails on its own, so it fails after the line above too
 	"\u09af\u09a4\u0995\u09cd\u09b7\u09a3 (\u09b8\u09a4\u09cd\u09af) { z; }", // a loop that only a failure ends: the line is over at its first diagnostic
+	"\u09a6\u09c7\u0996\u09be\u0993 1; q = 2;", // output, then a failing assignment to an undeclared name on the same line: the output belongs to this line's response
+	"7; q = 2; 8;",                        // an echo, then the same failure: nothing of this line is left over for a later one
 }
 
 // VH_repl: a session of k lines from the pool; each line's response must be what the same
